@@ -52,7 +52,7 @@ def variants():
     v += [("options", k) for k in ("dt_init_gt_dt_max", "terminal_psi_abs", "multiplier_low", "multiplier_high", "drag_zero", "drag_high", "step_size", "tolerance",
                                    "solver_name", "gpu", "cupy_without_gpu")]
     v += [("empty_terminal", k) for k in ("inside", "outside")]
-    v += [("seed", k) for k in ("geometry", "layer", "units", "probe_points", "name")]
+    v += [("seed", k) for k in ("geometry", "layer", "units", "probe_points", "name", "no_terminals", "fewer_terminals", "extra_hole", "renamed_terminal")]
     v += [("vector_potential", k) for k in ("n", "n1", "nplus1", "scalar_callable")]
     v += [("polygon", k) for k in ("bowtie", "two_points", "interior_ring", "collinear")]
     v += [("device", k) for k in ("duplicate_terminals", "unnamed_terminal", "duplicate_holes", "unnamed_film", "probe_outside", "probe_in_hole", "probe_shape")]
@@ -197,6 +197,10 @@ def run_case(case):
             "units": lambda: zoo.with_mesh_of(dev, case["dev"], "nm"),
             "probe_points": lambda: zoo.device(case["dev"], probes=False),
             "name": lambda: _renamed(dev),
+            "no_terminals": lambda: _variant(dev, terminals=[]),
+            "fewer_terminals": lambda: _variant(dev, terminals=sorted(dev.terminals, key=lambda t: t.name)[:1]),
+            "extra_hole": lambda: _variant(dev, extra_hole=True),
+            "renamed_terminal": lambda: _variant(dev, rename_terminal=True),
         }[var]()
         sd = tempfile.mkdtemp(prefix="seed-", dir=tempfile.gettempdir())
         o2 = tdgl.SolverOptions(solve_time=3e-3, dt_init=1e-3, dt_max=1e-2, output_file=os.path.join(sd, "seed.h5"), progress_interval=10**9,
@@ -289,6 +293,23 @@ def run_case(case):
     res.nontrivial = True
     res.outcome = f"{cls};{etype}"
     return res
+
+
+def _variant(dev, terminals=None, extra_hole=False, rename_terminal=False):
+    """the same film / layer / mesh with a different set of holes or terminals"""
+    import tdgl
+    from tdgl.geometry import circle
+
+    terms = [t.copy() for t in (dev.terminals if terminals is None else terminals)]
+    holes = [h.copy() for h in dev.holes]
+    if extra_hole:
+        holes = holes + [tdgl.Polygon("zz_extra", points=circle(0.15, points=10, center=(0.35, -0.45)))]
+    if rename_terminal and terms:
+        terms[-1] = terms[-1].set_name(terms[-1].name + "_x")
+    d = tdgl.Device(dev.name, layer=dev.layer.copy(), film=dev.film.copy(), holes=holes, terminals=terms, probe_points=dev.probe_points,
+                    length_units=dev.length_units)
+    d.mesh = dev.mesh
+    return d
 
 
 def _renamed(dev):
